@@ -492,3 +492,35 @@ def count_semantics(v):
             return Num(count_of(x))
         return x
     return val_img(v)
+
+
+def expand_linspace(v, passes: int = 4):
+    """numpy.linspace(s, e, k)[i] = s + i*(e - s)/(k - 1) for scalar end points: the closed form of an element, in real arithmetic (that linspace
+    returns its end points exactly is the matter of the rules that ask for linspace by name)"""
+    from ..values import Val as _Val
+    if not isinstance(v, _Val):
+        return v
+    for _ in range(passes):
+        mp = {}
+        try:
+            rats = list(v.rats())
+        except Exception:
+            return v
+        for r in rats:
+            for a in sym.all_atoms(r):
+                if sym.ATOMS.head(a) != 'el':
+                    continue
+                ref, ix = sym.ATOMS.args(a)
+                t = getattr(ref, 'term', None)
+                if not (isinstance(t, Term) and t.head == 'lib:numpy.linspace' and isinstance(ix, Rat)):
+                    continue
+                if {k_ for k_, _ in t.kwargs} - {'start', 'stop', 'num'} or len(t.args) > 3:
+                    continue
+                s_, e_, k_ = targ(t, 'start', 0), targ(t, 'stop', 1), targ(t, 'num', 2)
+                if not all(isinstance(x_, Num) and x_.length is None for x_ in (s_, e_, k_)):
+                    continue
+                mp[a] = s_.r + ix * (e_.r - s_.r) / (k_.r - C(1))
+        if not mp:
+            break
+        v = v.subst(lambda r, mp=mp: sym.subst(r, mp))
+    return v
